@@ -68,6 +68,38 @@ pub fn generate(ctx: &mut Ctx) {
         let op = format_op(tol, &v, &vec![usize::MAX; len]);
         run_op(ctx, &op);
     }
+    // boundary tolerances: tolerance x total lands on, just below or just above an integer m
+    // close to the optimal difference d (the conversion to the weight type truncates, so these
+    // are the inputs on which an off-by-rounding in the bound decides between Ok and NotFound)
+    for _ in 0..ctx.budget(400, 20000) {
+        let len = 2 + ctx.rng.usize(if ctx.quick() { 9 } else { 14 });
+        let hi = *ctx.rng.pick(&[3i64, 9, 30, 100, 1000]);
+        let v: Vec<i64> = (0..len).map(|_| ctx.rng.range(0, hi)).collect();
+        let sum: i64 = v.iter().sum();
+        if sum == 0 {
+            continue;
+        }
+        let d = best_diff(&v).unwrap_or(0);
+        for m in [d, d + 1, d.saturating_sub(1).max(0), ctx.rng.range(0, sum)] {
+            if m > sum {
+                continue;
+            }
+            let t0 = m as f64 / sum as f64;
+            for delta in [-2i64, -1, 0, 1, 2] {
+                let bits = t0.to_bits() as i64 + delta;
+                if bits < 0 {
+                    continue;
+                }
+                let t = f64::from_bits(bits as u64);
+                if !(0.0..=1.0).contains(&t) {
+                    continue;
+                }
+                ctx.count("boundary_tolerance");
+                let op = format_op(t, &v, &vec![usize::MAX; len]);
+                run_op(ctx, &op);
+            }
+        }
+    }
     // malformed stream: length mismatches
     for _ in 0..ctx.budget(50, 500) {
         let len = ctx.rng.usize(6);
